@@ -144,6 +144,10 @@ def run_case(case, ctx):
         st_again, again = ctx.call(drange, t0, t1, bump)
         ctx.check('result_is_fresh', st_again == 'ok' and list(again) == keep, lambda: 'drange(%s, %s, %r) called again after the caller edited the first result: %s.. (first call gave %s..)' % (t0, t1, bump, again[:4] if st_again == 'ok' else again, keep[:4]))
         res = keep
+    if not isinstance(res, (list, tuple)):
+        ctx.ev('drange_equals_iteration')
+        ctx.fail('drange_equals_iteration', 'drange(%s, %s, %r) returned %r, not a list; iterating the bump gives %d elements %s..' % (t0, t1, bump, res, n_exp, exp[:3]))
+        return
     res = list(res)
     ctx.check('drange_equals_iteration', res == exp, lambda: 'drange(%s, %s, %r) = %d elements %s..%s; iterating the bump gives %d elements %s..%s' % (t0, t1, bump, len(res), res[:4], res[-2:], n_exp, exp[:4], exp[-2:]))
     mono = all((b > a) if fwd else (b < a) for a, b in zip(res, res[1:]))
